@@ -58,5 +58,7 @@ def instances(tier):
     from vk.props.C04 import wrap_instances
     from vk.props.C14 import alpha_instances
     from vk.props.shared import doalign_instances
-    return (path_instances(tier) + weave_instances(tier, "O2", "weave") + final_instances(tier) + doalign_instances(tier, "O3", "doalign")
+    from vk.props import C16
+    arr = [i for i in C16.instances(tier, arr_ob="O4") if i.name.startswith("arr_twice")]   # array entry point stores residues unchanged
+    return (path_instances(tier) + weave_instances(tier, "O2", "weave") + final_instances(tier) + doalign_instances(tier, "O3", "doalign") + arr
             + wrap_instances("O6") + alpha_instances(tier, ob="O7", prefix="alpha"))
